@@ -104,6 +104,28 @@ def witness_varies(mods, n=40, procs=3):
     return any(fields(a).get("SAME") != "true" for a in answers) or len({stable_part(a) for a in answers}) != 1
 
 
+def mangle_tie(ctx):
+    """the mangling scheme of the model (`mangleVarFixed`, `mangleFnFixed`) is the scheme of the code: compare on
+    the storage and function names the real compiler emits"""
+    import re
+    mods = {"main": 'import { fma } from ma;\nlet a1 = 1;\nlet a = 2;\nfn h_1() { println(a1, a); }\nfn main() { h_1(); fma(); }',
+            "ma": 'let k_2 = "x";\npub fn fma() { println(k_2); }\nfn main() { }'}
+    out = core.go_lines("modgraph", [mod_line("modgraph", mods, "(asm true)")], timeout=120)[0]
+    asm = fields(out).get("ASM", "")
+    txt = bytes.fromhex(asm[1:]).decode("utf-8", "replace") if asm.startswith("x") else ""
+    got_globals = set(re.findall(r"SetGlobImm\(([^)]*)\)", txt))
+    got_fns = set(re.findall(r"^FN (.*)$", txt, flags=re.M))
+    want = core.lean_lines([f"mangle {mg.xhex(m)} {mg.xhex(n)} 0" for m, n in
+                            [("main", "a1"), ("main", "a"), ("ma", "k_2"), ("main", "h_1"), ("main", "main"), ("ma", "fma"), ("ma", "@init")]])
+    dec = lambda l, k: bytes.fromhex(fields(l)[k][1:]).decode()
+    want_globals = {dec(l, "FIXED") for l in want[:3]}
+    want_fns = {dec(l, "FNFIXED") for l in want[3:]}
+    ctx.count(case_key="mangle-tie", nontrivial=True)
+    if got_globals != want_globals or not want_fns <= got_fns:
+        ctx.broken.append(f"correspondence:mangling scheme: code emits globals {sorted(got_globals)} functions {sorted(got_fns)}; "
+                          f"model {sorted(want_globals)} {sorted(want_fns)}")
+
+
 def run(ctx):
     st = core.prepare(ctx, MODULES)
     ctx.assumptions += ASSUMPTIONS
@@ -135,7 +157,7 @@ def run(ctx):
             ctx.note("stopped early: five violations reported")
             break
         judge(ctx, programs[i:i + 200], n, procs, "C14")
-    # the fixed mangling scheme of the model is the scheme of the code: compare on the names the compiler emits
+    mangle_tie(ctx)
     ctx.coverage["programs"] = len(programs) + len(CORPUS)
     ctx.coverage["repetitions_per_program"] = n * procs
     ctx.coverage["rule"] = ("generated programs (objects with 2..12 fields: display, equality, JSON round trip, failing casts; "
